@@ -23,6 +23,8 @@ HEADER = (
     "Definition Qm (n:Z) (d:positive) : Q := Qmake n d.\n"
 )
 KNOWN_KEY = "C11:pLSCF_mpe:find_min-Lab7"
+# pLSCF_mpe has an explicit search band deltaf: a pole outside the REQUESTED band is not "within tolerance" whatever rtol says
+PL_READ = ("band", "count")
 ATOL = 1e-8
 NCH = 3
 GRID = 1024
@@ -103,6 +105,7 @@ def call(fn, *a, **kw):
     try:
         return fn(*a, **kw), None
     except Exception as e:  # noqa: BLE001
+        call.last = "%s: %s" % (type(e).__name__, str(e)[:200])
         return None, type(e).__name__
 
 
@@ -314,7 +317,23 @@ def oracle_findmin_expect(Fn, Lab, lv, freq, band, strict, rtol, reading):
     return None, []
 
 
-def oracle_findmin(Fn, Lab, lv, tabs, freq, band, strict, rtol, impl):
+def present_loop_decides(Fn, Lab, lv, freq, band, rtol, order):
+    """Label-7 stream of pLSCF_mpe only.  The present loop has three further deviations that are recorded separately (final report /
+    model plscf_find_min_lab: acceptance by ANY close pole, exit at the last column, not-found path) and are pinned by correspondence.
+    The oracle judges a label-7 table only when none of them can influence the outcome: a qualifying order exists, it is not the last
+    column, and no earlier column has as many distinct in-band stable poles as requests with at least one of them close."""
+    n, m = Fn.shape
+    if order is None or order >= m - 1:
+        return False
+    for c in range(order):
+        vals = sorted(set(float(Fn[r, c]) for r in range(n) if Lab[r, c] == lv and Fn[r, c] == Fn[r, c] and Fn[r, c] != 0
+                          and any(abs(Fn[r, c] - f) < band for f in freq)))
+        if len(vals) == len(freq) and any(abs(v - f) <= ATOL + rtol * abs(f) for v, f in zip(vals, freq)):
+            return False
+    return True
+
+
+def oracle_findmin(Fn, Lab, lv, tabs, freq, band, strict, rtol, impl, readings=("close", "band", "count"), present_loop=False):
     if impl[0] == "E":
         return "skip"
     st = Fn[(Lab == lv) & ~np.isnan(Fn)]
@@ -323,10 +342,12 @@ def oracle_findmin(Fn, Lab, lv, tabs, freq, band, strict, rtol, impl):
             d = abs(p - f)
             if near(d, band) or near(d, rtol * abs(f)) or near(d, rtol * abs(f) + ATOL) or rtol * abs(f) < d <= rtol * abs(f) + ATOL:
                 return "skip"
-    e = [oracle_findmin_expect(Fn, Lab, lv, freq, band, strict, rtol, rd) for rd in ("close", "band", "count")]
-    if not (e[0] == e[1] == e[2]):
+    e = [oracle_findmin_expect(Fn, Lab, lv, freq, band, strict, rtol, rd) for rd in readings]
+    if any(x != e[0] for x in e):
         return "skip"  # the readings of "within tolerance" disagree on this table: not judged
     order, picks = e[0]
+    if present_loop and not present_loop_decides(Fn, Lab, lv, freq, band, rtol, order):
+        return "skip"
     _, vals, oo, modes, FnOut = impl
     if vals is None:
         return ("malformed-output", "returned arrays have inconsistent lengths")
@@ -365,7 +386,7 @@ def gen_case(rng, malformed):
     if n == m:
         n += 1
     rtol = float(rng.choice([1 / 8, 1 / 16, 1 / 32, 3 / 64, 0.05, 0.01, 0.02]))
-    deltaf = float(rng.choice([0.05, 1 / 16, 1 / 8, rtol]))
+    deltaf = float(rng.choice([0.01, 0.05, 0.2, 1 / 16, rtol]))
     Fn = np.full((n, m), np.nan)
     Lab = np.zeros((n, m), dtype=int)
     for c in range(m):
@@ -441,6 +462,29 @@ def gen_case(rng, malformed):
             o_int = c
             o_list[k] = c
             kind = "valid"
+    if not malformed and m >= 3 and rng.random() < 0.3:
+        # deltaf decides which order qualifies: order c1 has one pole at distance dbig from its request, order c2 > c1 has all poles
+        # very near; requested band 0.01 / 0.05 / 0.2 against dbig 0.015 / 0.1 (rtol chosen so that np.isclose is not the deciding test)
+        freq = list(modes)
+        rtol = float(rng.choice([1 / 16, 0.05]))
+        deltaf = float(rng.choice([0.01, 0.05, 0.2]))
+        dbig = float(rng.choice([0.015, 0.1]))
+        c1 = int(rng.integers(0, m - 2))
+        c2 = int(rng.integers(c1 + 1, m - 1))
+        jb = int(rng.integers(0, nm))
+        for c in range(m):
+            col = Fn[:, c]
+            for f in modes:
+                col[np.abs(col - f) < 0.5] = np.nan
+            Lab[np.isnan(col), c] = 0
+            if c in (c1, c2) or rng.random() < 0.4:
+                rows = [int(x) for x in rng.permutation(n)[:nm]]
+                for j, f in enumerate(modes):
+                    d = (dbig if j == jb else 0.002) if c == c1 else float(rng.choice([0.004, 0.002, 0.0]))
+                    Fn[rows[j], c] = f + d * (1 if rng.random() < 0.5 else -1)
+                    Lab[rows[j], c] = 1 if c in (c1, c2) else int(rng.random() < 0.5 and j > 0)
+        o_int = c2
+        o_list = [int(rng.choice([c1, c2])) for _ in freq]
     if rng.random() < 0.4:  # label codes beyond 0/1 (e.g. the 0..7 codes of the repo's own test data): only code 1 means stable
         codes = rng.integers(2, 8, size=Lab.shape)
         Lab = np.where((Lab == 0) & (rng.random(Lab.shape) < 0.6), codes, Lab)
@@ -467,6 +511,26 @@ def gen_case(rng, malformed):
                 o_int=o_int, o_list=o_list)
 
 
+def gen_int_case(rng):
+    """Integer-valued frequencies without NaN (so the table can also be stored as an integer array)."""
+    modes = [2.0, 5.0, 9.0, 14.0][: int(rng.integers(2, 5))]
+    m = int(rng.integers(2, 5))
+    n = len(modes) + 1
+    Fn = np.zeros((n, m))
+    Lab = np.zeros((n, m), dtype=int)
+    for c in range(m):
+        vals = modes + [float(rng.choice([12.0, 7.0, 20.0, modes[0]]))]
+        if rng.random() < 0.3:
+            vals[int(rng.integers(0, len(modes)))] = 30.0  # a mode missing at this order
+        perm = rng.permutation(n)
+        for r, v in zip(perm, vals):
+            Fn[r, c] = v
+            Lab[r, c] = int(rng.random() < 0.4 + 0.6 * c / max(1, m - 1))
+    freq = [f for f in modes if rng.random() < 0.8] or [modes[0]]
+    return dict(kind="valid", present="int", Fn=tab_json(Fn), Lab=Lab.tolist(), freq=freq, rtol=0.05, deltaf=0.05,
+                o_int=int(rng.integers(0, m)), o_list=[int(x) for x in rng.integers(0, m, size=len(freq))])
+
+
 def in_domain(case):
     """ascending requests with non-overlapping tolerance bands (the property's quantifier)."""
     f = case["freq"]
@@ -484,9 +548,95 @@ def changed(W, P):
     return [k for k in P if P[k] is not None and not (W[k] is not None and W[k].dtype == P[k].dtype and eqv(W[k], P[k]))]
 
 
-def raw_call(routine, W, freq, order, cov, rtol, deltaf):
-    fr = list(freq)
-    od = list(order) if isinstance(order, list) else order
+F_FORMS = ("float", "np.float64", "0-d array")
+I_FORMS = ("int", "np.int64", "np.int32", "np.arange element")
+
+
+def as_float(x, form):
+    return float(x) if form == "float" else np.float64(x) if form == "np.float64" else np.array(float(x))
+
+
+def as_int(i, form):
+    return int(i) if form == "int" else np.int64(i) if form == "np.int64" else np.int32(i) if form == "np.int32" else np.arange(int(i) + 1)[int(i)]
+
+
+def present_args(rnd, freq, order, rtol, deltaf):
+    """The same option values in the other forms the unchanged routines accept (established on the unchanged tree: requests as
+    list / tuple / ndarray of float, np.float64 or 0-d arrays; tolerances as float, np.float64 or 0-d array; the entries of an order
+    list as int, np.int64, np.int32 or np.arange elements; 'find_min' as str or np.str_.  A scalar order must be a Python int:
+    NumPy integers are rejected by the unchanged code, so they are not part of the accepted forms)."""
+    forms = [rnd.choice(F_FORMS) for _ in freq]
+    cont = rnd.choice(["list", "tuple", "ndarray"])
+    if cont == "ndarray":
+        fr, forms = np.array([float(f) for f in freq]), ["ndarray"]
+    else:
+        fr = [as_float(f, fm) for f, fm in zip(freq, forms)]
+        fr = tuple(fr) if cont == "tuple" else fr
+    if isinstance(order, list):
+        oforms = [rnd.choice(I_FORMS) for _ in order]
+        od = [as_int(o, fm) for o, fm in zip(order, oforms)]
+    elif order == "find_min":
+        oforms = rnd.choice(["str", "np.str_"])
+        od = "find_min" if oforms == "str" else np.str_("find_min")
+    else:
+        oforms, od = "int", order
+    rf, dfm = rnd.choice(F_FORMS), rnd.choice(F_FORMS)
+    return fr, od, as_float(rtol, rf), as_float(deltaf, dfm), dict(sel_freq=cont + " of " + "/".join(sorted(set(forms))), order=oforms, rtol=rf, deltaf=dfm)
+
+
+def f32_exact(P, freq):
+    """float32 storage is only presented when every frequency of the table, every request and the payload are exactly
+    representable in float32 (then no decision can move: nothing is judged tighter than the narrower type allows)."""
+    Fn = P["Fn"]
+    v = Fn[~np.isnan(Fn)]
+    X = np.asarray(P["Xi"], dtype=float)
+    return (bool(np.all(v.astype(np.float32).astype(float) == v)) and all(float(np.float32(f)) == f for f in freq)
+            and bool(np.all((X.astype(np.float32).astype(float) == X) | (X != X))))
+
+
+def int_table(P):
+    Fn = P["Fn"]
+    return bool(not np.isnan(Fn).any() and np.all(Fn == np.round(Fn)) and Fn.min() >= 0 and Fn.max() < 60000)
+
+
+def present_tables(W, kind, rnd):
+    """Another storage of the same values: read-only arrays / float32+complex64 tables / another label dtype / integer frequencies."""
+    how = "every array argument read-only (setflags(write=False))" if kind == "ro" else kind
+    if kind == "ro":
+        for v in W.values():
+            if v is not None:
+                v.setflags(write=False)
+    elif kind == "f32":
+        for k, v in list(W.items()):
+            if v is None:
+                continue
+            W[k] = v.astype(np.float32) if v.dtype == np.float64 else v.astype(np.complex64) if v.dtype == np.complex128 else v.astype(np.int32)
+        how = "float32 / complex64 tables, int32 labels"
+    elif kind == "lab":
+        L = W["Lab"]
+        dts = [np.int8, np.uint8, np.int32, np.int64, np.float64, np.float32, np.uint16] + ([np.bool_] if set(np.unique(L)) <= {0, 1} else [])
+        dt = dts[rnd.randrange(len(dts))]
+        for k in ("Lab", "LabP"):
+            if W.get(k) is not None:
+                W[k] = W[k].astype(dt)
+        how = "labels stored as %s" % np.dtype(dt).name
+    elif kind == "int":
+        dts = [np.int64, np.int32, np.uint16] + ([np.uint8] if W["Fn"].max() < 256 else [])
+        dt = dts[rnd.randrange(len(dts))]
+        W["Fn"] = W["Fn"].astype(dt)
+        how = "integer-valued frequencies stored as %s" % np.dtype(dt).name
+    return how
+
+
+PRESENT_KEY = dict(ro="read-only-input", forms="option-form", f32="storage-dtype", lab="storage-dtype", int="storage-dtype")
+
+
+def raw_call(routine, W, freq, order, cov, rtol, deltaf, formed=False):
+    if formed:
+        fr, od = freq, order
+    else:
+        fr = list(freq)
+        od = list(order) if isinstance(order, list) else order
     if routine == "ssi":
         kw = dict(Lab=W["Lab"], rtol=rtol)
         if cov:
@@ -494,7 +644,7 @@ def raw_call(routine, W, freq, order, cov, rtol, deltaf):
         out, err = call(ssi.SSI_mpe, fr, W["Fn"], W["Xi"], W["Phi"], od, **kw)
     else:
         out, err = call(plscf.pLSCF_mpe, fr, W["Fn"], W["Xi"], W["Phi"], od, Lab=W.get("LabP", W["Lab"]), deltaf=deltaf, rtol=rtol)
-    args_changed = ([] if fr == list(freq) else ["sel_freq"]) + ([] if od == order else ["order"])
+    args_changed = [] if formed else ([] if fr == list(freq) else ["sel_freq"]) + ([] if od == order else ["order"])
     return out, err, args_changed
 
 
@@ -541,6 +691,28 @@ class Runner:
             self._specs.append((site, routine, order, cov, (out, err)))
         return out, err
 
+    def variants(self, case, P, freq, rtol, deltaf):
+        """Every entry point once more with the SAME values presented differently (read-only arrays, other option forms, other storage
+        dtypes): the result must be the one obtained from the plain float64 / Python-scalar presentation (which the model and the oracle judge)."""
+        rnd = self.ctx.rng
+        kinds = ["ro", "ro", "forms", "forms", "lab"] + (["f32", "f32"] if f32_exact(P, freq) else []) + (["int", "int", "int"] if int_table(P) else [])
+        forced = case.get("present")
+        for site, routine, order, cov, ref in self._specs:
+            kind = forced if forced in kinds else rnd.choice(kinds)
+            W = fresh(P)
+            how = present_tables(W, kind, rnd)
+            if kind == "forms":
+                fr, od, rt, df, how = present_args(rnd, freq, order, rtol, deltaf)
+                out, err, _ = raw_call(routine, W, fr, od, cov, rt, df, formed=True)
+            else:
+                out, err, _ = raw_call(routine, W, freq, order, cov, rtol, deltaf)
+            self.ctx.count(dict(case, site=site, order=order, cov=cov, presentation=str(how)), nontrivial=True)
+            self.ctx.hist("presentation", kind)
+            if not same_out((out, err), ref):
+                self.ctx.fail("oracle", "%s(order=%s) with %s returns %s; with writable float64 tables and Python scalars it returns %s"
+                              % (site, order, how, (getattr(call, "last", err) if err else brief((out, err))), brief(ref)),
+                              dict(case, site=site, order=order, presentation=how), key="C11:%s:%s" % (site, PRESENT_KEY[kind]))
+
     def sequences(self, case, P, freq, rtol, deltaf):
         """Several extractions on the SAME arrays: every call must return what it returns on fresh copies."""
         specs, self._specs = self._specs, []
@@ -554,7 +726,10 @@ class Runner:
             seq = [fm[0]] + seq
         seq = seq + [rnd.choice(specs), rnd.choice(specs)]
         W = fresh(P)
-        done = []
+        ro = rnd.random() < 0.5
+        if ro:
+            present_tables(W, "ro", rnd)
+        done = ["(tables read-only)"] if ro else []
         for site, routine, order, cov, ref in seq:
             out, err, _ = raw_call(routine, W, freq, order, cov, rtol, deltaf)
             self.ctx.count(dict(case, site=site, order=order, cov=cov, after=[d for d in done]), nontrivial=True)
@@ -682,7 +857,7 @@ class Runner:
             runs.append((out, err))
             if lname == "0/1" and dom:
                 impl = canon_impl(out, err, tabs, len(freq), False)
-                res = oracle_findmin(Fn, Lab, 1, tabs, freq, deltaf, True, rtol, impl)
+                res = oracle_findmin(Fn, Lab, 1, tabs, freq, deltaf, True, rtol, impl, readings=PL_READ)
                 if res not in (None, "skip"):
                     out0, err0 = self.icall("pLSCF_mpe", "plscf", "find_min", False, P, freq, rtol, deltaf, case, lab=np.zeros_like(Lab), record=False)
                     blind = (err is None and err0 is None and res[0] == "no-pole-returned"
@@ -692,17 +867,28 @@ class Runner:
                     ctx.hist("oracle", "plscf find_min:known-finding" if key == KNOWN_KEY else "plscf find_min:violation")
                 else:
                     ctx.hist("oracle", "plscf find_min:" + ("not-judged" if res == "skip" else "holds (no qualifying order)"))
+            if lname == "7" and dom:
+                # stable written as 7 (what the present code reads): here the property text decides order and poles wherever the
+                # recorded deviations of the present loop cannot interfere - in particular the REQUESTED band deltaf must be used
+                impl = canon_impl(out, err, tabs, len(freq), False)
+                res = oracle_findmin(Fn, L, 7, tabs, freq, deltaf, True, rtol, impl, readings=PL_READ, present_loop=True)
+                ctx.hist("oracle", "plscf find_min (stable=7):" + ("not-judged" if res == "skip" else "judged"))
+                ctx.hist("deltaf", deltaf)
+                if res not in (None, "skip"):
+                    ctx.fail("oracle", "pLSCF_mpe find_min (stable poles labelled 7, deltaf=%r): %s" % (deltaf, res[1]),
+                             dict(case, site="pLSCF_mpe", order="find_min", labels="stable relabelled 7"), key="C11:pLSCF_mpe:find_min-label7:%s" % res[0])
         metas.append(("plscf_find_min", runs))
         # ---- the conforming pLSCF function against the oracle's expectation (ties the proved spec to the property text)
         parts.append("showRes (plscf_find_min_conforming Fn Pay LabP fr df rt)")
         exp = None
         if dom and jd:
-            e = [oracle_findmin_expect(Fn, Lab, 1, freq, deltaf, True, rtol, rd) for rd in ("close", "band", "count")]
-            if e[0] == e[1] == e[2]:
+            e = [oracle_findmin_expect(Fn, Lab, 1, freq, deltaf, True, rtol, rd) for rd in PL_READ]
+            if all(x == e[0] for x in e):
                 exp = e[0]
         metas.append(("conforming", exp))
         self.exprs.append(let + ' ++ "#" ++ '.join(parts))
         self.meta.append((case, tabs, metas, src))
+        self.variants(case, P, freq, rtol, deltaf)
         self.sequences(case, P, freq, rtol, deltaf)
 
     # -------- compare with the model
@@ -961,15 +1147,37 @@ class ClassRunner(Runner):
         if parts:
             self.exprs.append(let + ' ++ "#" ++ '.join(parts))
             self.meta.append((case, tabs, metas, "class"))
-        # several mpe calls on the SAME algorithm object / result tables: each must return what it returns on fresh tables
+        # the same values presented differently (read-only result tables, other option forms, other storage dtypes)
         rnd = ctx.rng
+        kinds = ["ro", "ro", "forms", "forms", "lab"] + (["f32", "f32"] if f32_exact(tb, freq) else [])
+        for order, ref in seq_specs:
+            kind = rnd.choice(kinds)
+            W = fresh(tb)
+            how = present_tables(W, kind, rnd)
+            self.set_tables(alg.result, W, is_ssi)
+            if kind == "forms":
+                fr, od, rt, _, how = present_args(rnd, freq, order, rtol, 0.05)
+                got = self.class_mpe(ss, alg.name, alg, is_ssi, fr, od, rt, formed=True)
+            else:
+                got = self.class_mpe(ss, alg.name, alg, is_ssi, freq, order, rtol)
+            ctx.count(dict(case, order=order, presentation=str(how)), nontrivial=True)
+            ctx.hist("presentation", "%s (class)" % kind)
+            if not same_out(got, ref):
+                ctx.fail("oracle", "%s.mpe(order=%s) with %s returns %s; with writable float64 tables and Python scalars it returns %s"
+                         % (name, order, how, (getattr(call, "last", got[1]) if got[1] else brief(got)), brief(ref)),
+                         dict(case, order=order, presentation=how), key="C11:%s.mpe:%s" % (name, PRESENT_KEY[kind]))
+        # several mpe calls on the SAME algorithm object / result tables: each must return what it returns on fresh tables
         seq = seq_specs[:]
         rnd.shuffle(seq)
         if rnd.random() < 0.6:
             seq = [x for x in seq_specs if x[0] == "find_min"] + seq
         seq = seq + [rnd.choice(seq_specs)]
-        self.set_tables(alg.result, fresh(tb), is_ssi)
-        done = []
+        W = fresh(tb)
+        ro = rnd.random() < 0.5
+        if ro:
+            present_tables(W, "ro", rnd)
+        self.set_tables(alg.result, W, is_ssi)
+        done = ["(result tables read-only)"] if ro else []
         for order, ref in seq:
             got = self.class_mpe(ss, alg.name, alg, is_ssi, freq, order, rtol)
             ctx.count(dict(case, order=order, after=list(done)), nontrivial=True)
@@ -981,8 +1189,11 @@ class ClassRunner(Runner):
             done.append("mpe(%s)" % (order,))
 
     @staticmethod
-    def class_mpe(ss, name, alg, is_ssi, freq, order, rtol):
-        _, err = call(ss.mpe, name, sel_freq=list(freq), order=(list(order) if isinstance(order, list) else order), rtol=rtol)
+    def class_mpe(ss, name, alg, is_ssi, freq, order, rtol, formed=False):
+        if formed:
+            _, err = call(ss.mpe, name, sel_freq=freq, order=order, rtol=rtol)
+        else:
+            _, err = call(ss.mpe, name, sel_freq=list(freq), order=(list(order) if isinstance(order, list) else order), rtol=rtol)
         r = alg.result
         out = None if err else ((r.Fn, r.Xi, r.Phi, r.order_out, r.Fn_cov, r.Xi_cov, r.Phi_cov) if is_ssi else (r.Fn, r.Xi, r.Phi, r.order_out))
         return out, err
@@ -1043,6 +1254,8 @@ def run(ctx):
         R.add_case(case, src=os.path.basename(path))
     for k in range(ctx.n(130, 1500)):
         R.add_case(gen_case(ctx.np_rng, malformed=(k % 7 == 3)))
+    for k in range(ctx.n(4, 40)):
+        R.add_case(gen_int_case(ctx.np_rng))
     R.finish()
     C = ClassRunner(ctx)
     C.lab7 = R.lab7
